@@ -19,16 +19,18 @@ def digitsVal : List Char → Option Nat
   | [] => none
   | cs => cs.foldlM (fun acc c => (digitVal c).map (fun d => acc * 10 + d)) 0
 
+/-- optional leading sign -/
+def splitSign : List Char → Bool × List Char
+  | '-' :: r => (true, r)
+  | '+' :: r => (false, r)
+  | r => (false, r)
+
 /-- Go's `strconv.Atoi` on a 64-bit platform: optional sign, at least one ASCII digit, nothing else, int64 range -/
 def atoiC (cs : List Char) : Option Int :=
-  let (neg, body) := match cs with
-    | '-' :: r => (true, r)
-    | '+' :: r => (false, r)
-    | r => (false, r)
-  match digitsVal body with
+  match digitsVal (splitSign cs).2 with
   | none => none
   | some n =>
-    let v : Int := if neg then -(n : Int) else n
+    let v : Int := if (splitSign cs).1 then -(n : Int) else n
     if v < -(2^63) ∨ v > 2^63 - 1 then none else some v
 
 def atoi (s : String) : Option Int := atoiC s.toList
